@@ -11,12 +11,15 @@ func init() {
 		run: func(c *Ctx, thorough bool) {
 			c.guard("C11.1", func() { ruleNoBlockUnderRegistryLock(c, "C11.1", allLocks) })
 			c.guard("C11.2", func() { ruleLockOrder(c, "C11.2") })
+			c.guard("C11.3", func() { ruleStreamLockObservation(c, "C11.3") })
+			c.guard("C11.4", func() {
+				ruleClientRegistrationPairing(c, "C11.4")
+				ruleTrailerBeforeUnregister(c, "C11.4")
+			})
 		},
 	})
 }
 
-func runPositiveControls() {}
-func runSeededCorpus(pid, repo string) map[string]any { return map[string]any{"variants": 0} }
 
 var baseAssumptions = []string{
 	"go/packages, go/types and go/ssa of golang.org/x/tools v0.29.0 are correct",
@@ -40,6 +43,7 @@ func init() {
 			c.guard("C01.5", func() { ruleDispatchById(c, "C01.5") })
 			c.guard("C01.6", func() { ruleHandlerExactlyOnce(c, "C01.6") })
 			c.guard("C01.7", func() { rulePayloadProvenance(c, "C01.7") })
+			c.guard("C01.8", func() { ruleHandlerGate(c, "C01.8") })
 		},
 	})
 }
@@ -82,6 +86,7 @@ func init() {
 			c.guard("C03.3", func() { ruleErrorToStatusSiblings(c, "C03.3") })
 			c.guard("C03.4", func() { ruleValueOrError(c, "C03.4") })
 			c.guard("C03.5", func() { ruleResetNeverSuccess(c, "C03.5") })
+			c.guard("C03.6", func() { ruleSingleWriter(c, "C03.6"); ruleTrailerBeforeUnregister(c, "C03.6") })
 		},
 	})
 }
@@ -280,6 +285,7 @@ func init() {
 			c.guard("C16.1", func() { ruleProxyForwardsSameEnvelopeOnce(c, "C16.1") })
 			c.guard("C16.2", func() { ruleProxyRightPeer(c, "C16.2") })
 			c.guard("C16.3", func() { ruleReceivedEnvelopeStores(c, "C16.3") })
+			c.guard("C16.4", func() { ruleReturnRoute(c, "C16.4", nil) })
 			c.guard("C16.5", func() { ruleProxyOrder(c, "C16.5") })
 			c.guard("C16.6", func() { ruleProxyNoDiscard(c, "C16.6") })
 		},
@@ -354,4 +360,23 @@ func init() {
 			c.guard("C20.6", func() { ruleConnEvents(c, "C20.6") })
 		},
 	})
+}
+
+// C11.3: per-stream state locks held across a blocking primitive are recorded as observations (no connection-wide
+// party takes those locks), not as violations.
+func ruleStreamLockObservation(c *Ctx, rule string) {
+	p := c.p
+	le := p.Locks()
+	n := 0
+	for _, f := range p.Funcs {
+		for _, op := range p.Blocks().ops[f] {
+			for k := range le.May(op.Instr) {
+				if _, reg := registryLocks[k]; !reg {
+					n++
+					c.observations = append(c.observations, "per-object lock "+k+" may be held across "+p.opDesc(op)+" in "+p.cname(f)+" ("+p.ipos(op.Instr)+")")
+				}
+			}
+		}
+	}
+	c.trivial(rule, "stream-state-locks", true, itoa(n)+" blocking primitives execute under a per-object (non-registry) lock; recorded as observations")
 }
